@@ -123,7 +123,7 @@ def canonical_replay(ctx, entries, cases, outs):
     terms, meta = [], []
     for case, out in zip(cases, outs):
         E = entries[case["eidx"]]
-        if out["status"] != "ok" or E.mode != "max" or E.stochastic or E.name in other_path or (E.wrapper and E.subsample):
+        if out["status"] != "ok" or E.mode != "max" or E.stochastic or E.base in other_path or (E.wrapper and E.subsample):
             continue
         qs = E.make(case["classes"], case["seed"])
         if not ({c.__name__ for c in type(qs).__mro__} & canon):
